@@ -78,6 +78,16 @@ def country_facts(src, country):
         pass
     facts["languages"] = sorted(langs & catalogs)
     facts["catalogs"] = sorted(catalogs)
+    # every language the tree mentions anywhere for this country (a locale directory, compiled or not; a template for any report)
+    mentioned = set()
+    try:
+        mentioned.update(d for d in os.listdir(loc_dir) if os.path.isdir(os.path.join(loc_dir, d)))
+    except OSError:
+        pass
+    for f in files:
+        if f.startswith("template_") and (f.endswith(".ods") or f.endswith(".txt")):
+            mentioned.add(f[:-4].rsplit("_", 1)[-1])
+    facts["mentioned_languages"] = sorted(mentioned)
     return facts
 
 
